@@ -302,8 +302,12 @@ def record_run(sc):
                                "resim_max_uK": uK(mx), "resim_min_uK": uK(mn)})
                 if sc["months"] % 12 != 0:
                     raise _SkipReport()     # OutputManager cannot label a horizon that is not a whole number of years (IndexError): observation F18
-                m.prepare_results("p", "n", "a", "i")
-                m.write_output_files(d)
+                try:
+                    m.prepare_results("p", "n", "a", "i")
+                    m.write_output_files(d)
+                except Exception as ex:  # noqa: BLE001 - the run found a design and then failed while reporting it
+                    desc["report_exception"] = f"{type(ex).__name__}: {ex}"[:300]
+                    raise _SkipReport() from None
                 summ = json.loads((d / "SimulationSummary.json").read_text())
                 rows = sum(1 for _ in open(d / "BoreFieldData.csv")) - 1
                 gs = summ["ghe_system"]
